@@ -88,8 +88,15 @@ def centroid_1dg(data, error=None, mask=None):
                       'inf) that were automatically masked.',
                       AstropyUserWarning)
 
+    # The centroid does not depend on a positive scaling of the data,
+    # but the convergence criteria of the fitter do (data of order 1e-17,
+    # e.g., in flux units, would stop the fit at the initial guess).
+    # Fit the data in units of its largest absolute value.
+    scale = _data_scale(data)
+    data = data / scale
+
     if error is not None:
-        error = np.ma.masked_invalid(error)
+        error = np.ma.masked_invalid(error) / scale
         if data.shape != error.shape:
             raise ValueError('data and error must have the same shape.')
         data.mask |= error.mask
@@ -120,6 +127,17 @@ def centroid_1dg(data, error=None, mask=None):
         centroid.append(g_fit.mean.value)
 
     return np.array(centroid)
+
+
+def _data_scale(data):
+    """
+    Return the largest absolute unmasked value of a masked array, or 1
+    if that is not a positive finite number.
+    """
+    scale = np.ma.max(np.abs(data))
+    if scale is np.ma.masked or not np.isfinite(scale) or scale <= 0:
+        return 1.0
+    return float(scale)
 
 
 def _gaussian1d_moments(data, mask=None):
@@ -244,8 +262,15 @@ def centroid_2dg(data, error=None, mask=None):
                       'inf) that were automatically masked.',
                       AstropyUserWarning)
 
+    # The centroid does not depend on a positive scaling of the data,
+    # but the convergence criteria of the fitter do (data of order 1e-17,
+    # e.g., in flux units, would stop the fit at the initial guess).
+    # Fit the data in units of its largest absolute value.
+    scale = _data_scale(data)
+    data = data / scale
+
     if error is not None:
-        error = np.ma.masked_invalid(error)
+        error = np.ma.masked_invalid(error) / scale
         if data.shape != error.shape:
             raise ValueError('data and error must have the same shape.')
         data.mask |= error.mask
